@@ -667,6 +667,8 @@ def builtin_call(self, st, name, args, kwargs, node=None):
         if isinstance(v, ListVal):
             return [(OK, st, ListVal([TupleVal([Val(z3.IntVal(i), INT), x]) for i, x in enumerate(v.items)]))]
         raise Unsupported("enumerate")
+    if name == "range" and len(a) == 1 and isinstance(a[0], Val) and a[0].ty == INT and _const_int(a[0]) is not None and _const_int(a[0]) <= 8:
+        return [(OK, st, ListVal([Val(z3.IntVal(i), INT) for i in range(_const_int(a[0]))]))]   # literal bound: unrolled completely
     if name == "range" and len(a) == 1 and isinstance(a[0], Val) and a[0].ty == INT:
         n = a[0].term
         r = z3.Const(fresh_name("range"), SeqT(INT).sort())
